@@ -28,6 +28,8 @@ type Prog struct {
 	litOf       map[*ast.FuncLit]*Func
 	graphs      map[*Func]*Graph
 	parentOf    map[ast.Node]ast.Node
+	Overlay     map[string][]byte
+	InlineNotes []string
 	roleOf      map[*Func]string           // functions renamed to their canonical role name -> real name
 	typeCanon   map[*types.TypeName]string // private struct types playing a conventional role -> canonical name
 	typeByCanon map[string]*types.TypeName
@@ -72,7 +74,39 @@ func inScopeFile(name string) bool {
 	return true
 }
 
+// Load type-checks the working tree and, if private helpers were introduced
+// that the reference tree does not have, re-loads it with those helpers
+// inlined into their callers (see inline.go).
 func Load(dir, goos, goarch string) (*Prog, error) {
+	p, err := loadWith(dir, goos, goarch, nil)
+	if err != nil {
+		return nil, err
+	}
+	for round := 0; round < 3; round++ {
+		ov, notes := p.inlineOverlay()
+		if len(ov) == 0 {
+			break
+		}
+		// accumulate: files rewritten in earlier rounds stay rewritten
+		merged := map[string][]byte{}
+		for k, v := range p.Overlay {
+			merged[k] = v
+		}
+		for k, v := range ov {
+			merged[k] = v
+		}
+		p2, err2 := loadWith(dir, goos, goarch, merged)
+		if err2 != nil {
+			p.InlineNotes = append(p.InlineNotes, "helper inlining was attempted but the rewritten program does not type-check ("+firstLine(err2.Error())+"); analysing the original program")
+			break
+		}
+		p2.InlineNotes = append(append([]string{}, p.InlineNotes...), notes...)
+		p = p2
+	}
+	return p, nil
+}
+
+func loadWith(dir, goos, goarch string, overlay map[string][]byte) (*Prog, error) {
 	env := os.Environ()
 	env = append(env, "GOFLAGS=-mod=mod", "GOPROXY=off", "GOWORK=off")
 	if goos != "" {
@@ -85,10 +119,11 @@ func Load(dir, goos, goarch string) (*Prog, error) {
 	cfg := &packages.Config{
 		Mode: packages.NeedName | packages.NeedFiles | packages.NeedCompiledGoFiles | packages.NeedImports |
 			packages.NeedDeps | packages.NeedTypes | packages.NeedSyntax | packages.NeedTypesInfo | packages.NeedTypesSizes | packages.NeedModule,
-		Dir:   dir,
-		Env:   env,
-		Fset:  fset,
-		Tests: false,
+		Dir:     dir,
+		Env:     env,
+		Fset:    fset,
+		Tests:   false,
+		Overlay: overlay,
 	}
 	pats := []string{".", "./internal/...", "./runner/..."}
 	pkgs, err := packages.Load(cfg, pats...)
@@ -97,7 +132,7 @@ func Load(dir, goos, goarch string) (*Prog, error) {
 	}
 	p := &Prog{Dir: dir, Fset: fset, Pkgs: map[string]*packages.Package{}, All: pkgs,
 		declOf: map[*types.Func]*Func{}, litOf: map[*ast.FuncLit]*Func{}, graphs: map[*Func]*Graph{},
-		parentOf: map[ast.Node]ast.Node{}, roleOf: map[*Func]string{}, typeCanon: map[*types.TypeName]string{}, typeByCanon: map[string]*types.TypeName{}, GOOS: goos, GOARCH: goarch}
+		parentOf: map[ast.Node]ast.Node{}, Overlay: overlay, roleOf: map[*Func]string{}, typeCanon: map[*types.TypeName]string{}, typeByCanon: map[string]*types.TypeName{}, GOOS: goos, GOARCH: goarch}
 	var errs []string
 	for _, pk := range pkgs {
 		for _, e := range pk.Errors {
